@@ -1112,25 +1112,47 @@ func alignEasy(c *Ctx, o alignOpts, mode int) {
 				open = -float64(1 + r.IntN(4))
 			}
 			m[[2]byte{gapB, gapB}] = open
+			// Cost-like scoring (one case in seven): EVERY pair costs something, identical symbols the least; gaps are
+			// cheap or free to extend. "Matching more never hurts" is false here: an alignment made of gaps alone can
+			// beat the diagonal of two identical sequences.
+			if i%7 == 3 {
+				top := 0.0
+				for key, v := range m {
+					if key[0] != gapB && key[1] != gapB {
+						top = max(top, v)
+					}
+				}
+				shift := top + float64(1+r.IntN(3))
+				for key := range m {
+					if key[0] != gapB && key[1] != gapB {
+						m[key] -= shift
+					}
+				}
+				g = -float64(r.IntN(2))
+				for _, x := range alpha {
+					m[[2]byte{x, gapB}], m[[2]byte{gapB, x}] = g, g
+				}
+				k.Count("cost_like_matrices", 1)
+			}
 			x := randSeq(r, alpha, 64+r.IntN(77))
 			if r.IntN(5) == 0 {
 				x = randSeq(r, alpha, r.IntN(64))
 			}
+			if i%8 == 3 || i%56 == 31 { // tables of 2^16 cells and more: identical and near-identical sequences of equal length
+				x = randSeq(r, alpha[:min(len(alpha), 4)], 256+r.IntN(150))
+				k.Count("easy_looking_large_tables", 1)
+			}
 			tail := randSeq(r, alpha, 1+r.IntN(3))
 			var a, b []byte
-			switch i % 6 {
-			case 0:
-				a, b = append(append([]byte{}, x...), tail...), x
-			case 1:
-				a, b = x, append(append([]byte{}, x...), tail...)
-			case 2:
-				a, b = append(append([]byte{}, tail...), x...), x
-			case 3:
-				a, b = x, append(append([]byte{}, tail...), x...)
-			case 4:
+			if i%8 == 3 || i%56 == 31 {
 				a, b = x, append([]byte{}, x...)
-			default:
-				a, b = append(append(append([]byte{}, tail...), x...), tail...), x
+				for j := r.IntN(3); j > 0; j-- {
+					b[r.IntN(len(b))] = alpha[r.IntN(min(len(alpha), 4))]
+				}
+			} else {
+				a, b = easyPair(i, x, tail)
+			}
+			switch 99 {
 			}
 			k.Input("a", a)
 			k.Input("b", b)
@@ -1529,4 +1551,20 @@ func alignThin(c *Ctx, o alignOpts, open float64) {
 			k.Nontrivial([]byte(fmt.Sprint("thin", sh)), []byte(matrixString(m)))
 		})
 	}
+}
+
+func easyPair(i int, x, tail []byte) (a, b []byte) {
+	switch i % 6 {
+	case 0:
+		return append(append([]byte{}, x...), tail...), x
+	case 1:
+		return x, append(append([]byte{}, x...), tail...)
+	case 2:
+		return append(append([]byte{}, tail...), x...), x
+	case 3:
+		return x, append(append([]byte{}, tail...), x...)
+	case 4:
+		return x, append([]byte{}, x...)
+	}
+	return append(append(append([]byte{}, tail...), x...), tail...), x
 }
